@@ -8,6 +8,7 @@ CONSTANTS
  ModeSet = {"on"}
  TokenSet = {"absent", "fresh", "stale", "ghost"}
  LocalSet = {TRUE}
+ LeakSet = {FALSE}
  MaxFaults = 99
 INVARIANTS Conform AtMostOneAcquire
 CHECK_DEADLOCK TRUE
